@@ -38,7 +38,7 @@ FEAT = gen.feat(
     p_kw=0.35,
     ann={"c": 5, "o": 1, "u": 3, "i": 1.5, "d": 1.2, "x": 0.7, "h": 0.7, "ph": 0.5, "ss": 0.4,
          "w": 0.25},
-    bodies={"leaf": 4, "next": 3, "rec": 0.8, "fnext": 0.3, "next2": 0.2, "rec_next": 0.3},
+    bodies={"next_try": 0.6, "leaf": 4, "next": 3, "rec": 0.8, "fnext": 0.3, "next2": 0.2, "rec_next": 0.3},
     ncls=(3, 7), nmeth=(3, 8), ncorpus=(5, 9), p_dup_sig=0.15, swarm_drop=0.3,
 )
 NCONFIG = {"quick": 16, "thorough": 32}
